@@ -475,6 +475,23 @@ def _worker(job):
                 res_cases.append((s.name, enc))
             out["resolve_unmodelled"] = unmod[0]
             out["resolve"] = res_cases
+        if acts and sum(map(ord, name)) % 3 == 0:
+            # history: the same Grammar object first served a parser with ANOTHER action table (an
+            # action for every symbol); the parser under test must still get exactly the actions
+            # of its own table -- results are compared with the model as for a fresh Grammar.
+            # (Only with a non-empty table: with none, Parser() skips action resolution altogether
+            # and the previous parser's actions stay on the Grammar -- KF-C09-actions-stored-on-grammar,
+            # probed separately by probe_action_history.)
+            out["history"] = True
+
+            def _noise(_, nodes=None, *a, **k):
+                return "NOISE"
+            _noise._k = 899          # encodes as a user action no spec ever uses
+            try:
+                with impl.time_limit(5), impl.quiet():
+                    Parser(g, actions={s.name: _noise for s in g})
+            except BaseException:  # noqa
+                pass
         import time as _time
         t_c = _time.time()
         try:
@@ -871,6 +888,7 @@ def run(ctx):
           "psid_compared": 0, "assign_compared": 0, "builtin_cases": len(bcases), "builtin_exceptions": 0,
           "model_out_of_fuel": 0, "nested_checked": 0, "layout_grammars": 0, "unmodelled_actions": 0,
           "fly_raised_before_syntax_error": 0}
+    probe_action_history(ctx, st)
     mcases = []
     meta = []
     wsl = [ord(c) for c in WS]
@@ -1084,6 +1102,43 @@ def run(ctx):
         "exhaustive": False,
     }
     return cov
+
+
+KF_HIST = "KF-C09-actions-stored-on-grammar"
+
+
+def probe_action_history(ctx, st):
+    """actions live on the Grammar's symbols: (1) a parser built WITHOUT actions after one built with
+    actions from the same Grammar object runs the other parser's actions; (2) an earlier parser runs the
+    action table of the parser built last.  Fixed probes; every other history scenario is checked
+    against the model in the workers."""
+    from parglare import Grammar, Parser
+    from lib import impl
+    text = "S: a;\nterminals\na: 'a';"
+    probs = []
+    try:
+        with impl.time_limit(10), impl.quiet():
+            g = Grammar.from_string(text)
+            Parser(g, actions={"S": lambda _, n: "FIRST"})
+            r1 = Parser(g).parse("a")
+            g2 = Grammar.from_string(text)
+            p1 = Parser(g2, actions={"S": lambda _, n: "FIRST"})
+            Parser(g2, actions={"S": lambda _, n: "SECOND"})
+            r2 = p1.parse("a")
+    except BaseException as e:  # noqa
+        ctx.violation("action-history probe raised %s" % impl.exc_kind(e), {"grammar": text}, key="hist-exc")
+        return
+    st["history_probes"] = 2
+    if r1 != ["a"]:
+        probs.append("Parser(g) built after Parser(g, actions={'S': f}) returns %r instead of ['a']" % (r1,))
+    if r2 != "FIRST":
+        probs.append("p1 = Parser(g, actions={'S': f1}); Parser(g, actions={'S': f2}); p1.parse('a') returns %r "
+                     "instead of f1's result" % (r2,))
+    expected = (r1 == "FIRST" or r1 == ["a"]) and (r2 == "SECOND" or r2 == "FIRST")
+    if probs and expected and any(e["id"] == KF_HIST for e in ctx.kf):
+        ctx.known_finding(KF_HIST, "semantic actions are stored on the shared Grammar symbols: " + "; ".join(probs))
+    elif probs:
+        ctx.violation("action history: " + "; ".join(probs), {"grammar": text, "input": "a"}, key="hist")
 
 
 KF_NONE = "KF-C09-collect-drops-none"
